@@ -6,6 +6,7 @@ import (
 	"fmt"
 	"os"
 	"path/filepath"
+	"regexp"
 	"sort"
 	"strings"
 	"sync"
@@ -60,67 +61,90 @@ func harnessFile(n string) string {
 
 func checkConc(prop, tier string, pkgs []concPkg) {
 	rep := newReporter(prop, tier)
-	maxStates, budget := 400000, 150
+	maxStates, budget := 400000, 900
 	if tier == "thorough" {
-		maxStates, budget = 3000000, 1500
+		maxStates, budget = 3000000, 5400
 	}
 	var all []mcReport
 	var mu sync.Mutex
+	raceRuns := 0
 	counts := map[string]int{}
+	var pwg sync.WaitGroup
 	for _, pk := range pkgs {
-		dir := filepath.Join(scratchDir, "e3a", pk.name)
-		user := harnessFile(pk.user)
-		bin, cnt, inconclusive, err := buildConcScenario(pk.name, user, "")
-		_ = bin
-		if inconclusive != "" {
-			fmt.Println("INCONCLUSIVE: the generated code contains a construct the scheduler cannot own:", inconclusive)
-			cleanup()
-			os.Exit(3)
-		}
-		if err != nil {
-			// the generator itself fails on the scenario package: that is a violation of the property's premise
-			rep.Violation("scenario-package-not-generated|"+pk.name, err.Error(), map[string]interface{}{"engine": "e3a", "files": pkgFiles{"p/user.go": user}})
-			continue
-		}
-		for k, v := range cnt {
-			counts[k] += v
-		}
-		// write the harness (several files) and build
-		for i, h := range pk.harness {
-			writeFile(filepath.Join(dir, fmt.Sprintf("h%d.go", i)), harnessFile(h))
-		}
-		b := run(dir, 10*time.Minute, nil, "go", "build", "-o", "explore.bin", ".")
-		if b.Exit != 0 {
-			// generated code that no longer compiles against the shim: report as a violation of the generated code only if it is not the harness
-			if strings.Contains(b.Stderr, "p/derived.gen.go") && !strings.Contains(b.Stderr, "h0.go") && !strings.Contains(b.Stderr, "h1.go") {
-				rep.Infra("instrumented generated code does not build: " + tail(b.Stderr, 1500))
-			} else {
-				rep.Infra("harness does not build: " + tail(b.Stderr, 1500))
+		pk := pk
+		pwg.Add(1)
+		go func() {
+			defer pwg.Done()
+			dir := filepath.Join(scratchDir, "e3a", pk.name)
+			user := harnessFile(pk.user)
+			bin, cnt, inconclusive, err := buildConcScenario(pk.name, user, "")
+			_ = bin
+			if inconclusive != "" {
+				fmt.Println("INCONCLUSIVE: the generated code contains a construct the scheduler cannot own:", inconclusive)
+				cleanup()
+				os.Exit(3)
 			}
-			continue
-		}
-		shards := workers
-		parDo(shards, func(sh int) {
-			r := run(dir, time.Duration(budget+120)*time.Second, nil, filepath.Join(dir, "explore.bin"), tier, fmt.Sprint(sh), fmt.Sprint(shards), fmt.Sprint(maxStates), fmt.Sprint(budget))
-			if r.Exit != 0 {
-				rep.Infra(fmt.Sprintf("explorer %s shard %d: exit %d: %s", pk.name, sh, r.Exit, tail(r.Stderr, 800)))
+			if err != nil {
+				// the generator itself fails on the scenario package: that is a violation of the property's premise
+				rep.Violation("scenario-package-not-generated|"+pk.name, err.Error(), map[string]interface{}{"engine": "e3a", "files": pkgFiles{"p/user.go": user}})
 				return
 			}
-			sc := bufio.NewScanner(strings.NewReader(r.Stdout))
-			sc.Buffer(make([]byte, 1<<20), 1<<28)
-			for sc.Scan() {
-				var mr mcReport
-				if err := json.Unmarshal(sc.Bytes(), &mr); err != nil {
-					rep.Infra("bad explorer output: " + head(sc.Text(), 200))
-					continue
-				}
-				mu.Lock()
-				all = append(all, mr)
-				mu.Unlock()
+			mu.Lock()
+			for k, v := range cnt {
+				counts[k] += v
 			}
-		})
-		removeAll(dir)
+			mu.Unlock()
+			// supplementary pass for the data-race clause, concurrently with the exploration: the
+			// same harness bodies and the uninstrumented generated code run free under the race
+			// detector (sampling, labelled as such; it can only add a violation, never decide the
+			// schedule clauses)
+			raceDone := make(chan int, 1)
+			go func() { raceDone <- racePass(rep, pk, user, tier) }()
+			defer func() {
+				n := <-raceDone
+				mu.Lock()
+				raceRuns += n
+				mu.Unlock()
+			}()
+			// write the harness (several files) and build
+			for i, h := range pk.harness {
+				writeFile(filepath.Join(dir, fmt.Sprintf("h%d.go", i)), harnessFile(h))
+			}
+			b := run(dir, 10*time.Minute, nil, "go", "build", "-o", "explore.bin", ".")
+			if b.Exit != 0 {
+				// generated code that no longer compiles against the shim: report as a violation of the generated code only if it is not the harness
+				if strings.Contains(b.Stderr, "p/derived.gen.go") && !strings.Contains(b.Stderr, "h0.go") && !strings.Contains(b.Stderr, "h1.go") {
+					rep.Infra("instrumented generated code does not build: " + tail(b.Stderr, 1500))
+				} else {
+					rep.Infra("harness does not build: " + tail(b.Stderr, 1500))
+				}
+				return
+			}
+			shards := workers
+			parDo(shards, func(sh int) {
+				r := run(dir, time.Duration(budget+120)*time.Second, nil, filepath.Join(dir, "explore.bin"), tier, fmt.Sprint(sh), fmt.Sprint(shards), fmt.Sprint(maxStates), fmt.Sprint(budget))
+				if r.Exit != 0 {
+					rep.Infra(fmt.Sprintf("explorer %s shard %d: exit %d: %s", pk.name, sh, r.Exit, tail(r.Stderr, 800)))
+					return
+				}
+				sc := bufio.NewScanner(strings.NewReader(r.Stdout))
+				sc.Buffer(make([]byte, 1<<20), 1<<28)
+				for sc.Scan() {
+					var mr mcReport
+					if err := json.Unmarshal(sc.Bytes(), &mr); err != nil {
+						rep.Infra("bad explorer output: " + head(sc.Text(), 200))
+						continue
+					}
+					mu.Lock()
+					all = append(all, mr)
+					mu.Unlock()
+				}
+			})
+			removeAll(dir)
+		}()
 	}
+	pwg.Wait()
+	rep.Cov["race_detector_free_runs"] = raceRuns
 	states, trans, execs, terminal := 0, 0, 0, 0
 	exhaustive := true
 	var capped []string
@@ -187,4 +211,72 @@ func checkConc(prop, tier string, pkgs []concPkg) {
 		rep.Infra("no configuration explored")
 	}
 	rep.Finish()
+}
+
+var raceFuncRe = regexp.MustCompile(`example\.com/v/p\.(derive[A-Za-z]+)`)
+
+// racePass builds the scenario without instrumentation and with -race and runs
+// every configuration free a few times.
+func racePass(rep *Reporter, pk concPkg, user, tier string) int {
+	dir := filepath.Join(scratchDir, "e3a", pk.name+"-race")
+	writePkg(dir, pkgFiles{
+		"go.mod":    "module example.com/v\n\ngo 1.24\n\nrequire verifrt v0.0.0\n\nreplace verifrt => " + filepath.Join(verifDir, "rt") + "\n",
+		"p/user.go": user,
+	})
+	defer removeAll(dir)
+	if g := run(dir, 3*time.Minute, nil, buildGoderive(), "./p"); g.Exit != 0 {
+		return 0
+	}
+	for i, h := range pk.harness {
+		writeFile(filepath.Join(dir, fmt.Sprintf("h%d.go", i)), harnessFile(h))
+	}
+	b := run(dir, 15*time.Minute, []string{"CGO_ENABLED=1"}, "go", "build", "-race", "-o", "race.bin", ".")
+	if b.Exit != 0 {
+		// the race detector is supplementary: if it cannot be built here, say so and go on
+		rep.Cov["race_pass_note"] = "race build failed: " + head(firstErrorLine(b.Stderr), 200)
+		return 0
+	}
+	reps := 2
+	if tier == "thorough" {
+		reps = 25
+	}
+	runs := 0
+	var mu sync.Mutex
+	shards := workers
+	parDo(shards, func(sh int) {
+		r := run(dir, 20*time.Minute, []string{"GOMAXPROCS=4", "GORACE=halt_on_error=0"}, filepath.Join(dir, "race.bin"), tier, fmt.Sprint(sh), fmt.Sprint(shards), fmt.Sprint(reps), "0", "race")
+		mu.Lock()
+		runs++
+		mu.Unlock()
+		if strings.Contains(r.Stderr, "DATA RACE") {
+			fn := "generated code"
+			if m := raceFuncRe.FindStringSubmatch(r.Stderr); m != nil {
+				fn = normNumRe.ReplaceAllString(m[1], "")
+			}
+			i := strings.Index(r.Stderr, "WARNING: DATA RACE")
+			rep.Violation("data-race|"+fn, "the race detector reports a data race in a free run of the generated code: "+head(r.Stderr[i:], 1500),
+				map[string]interface{}{"engine": "e3a-race", "package": pk.name, "report": head(r.Stderr[i:], 4000)})
+		}
+		sc := bufio.NewScanner(strings.NewReader(r.Stdout))
+		sc.Buffer(make([]byte, 1<<20), 1<<26)
+		for sc.Scan() {
+			var m struct {
+				Name     string
+				Problems []string
+			}
+			if json.Unmarshal(sc.Bytes(), &m) == nil && len(m.Problems) > 0 {
+				cls := m.Name
+				if i := strings.IndexByte(cls, ' '); i > 0 {
+					cls = cls[:i]
+				}
+				clause := m.Problems[0]
+				if i := strings.IndexByte(clause, ':'); i > 0 {
+					clause = clause[:i]
+				}
+				rep.Violation("free-run|"+cls+"|"+normNumRe.ReplaceAllString(clause, "N"), fmt.Sprintf("free run (native runtime) of configuration %s: %s", m.Name, strings.Join(m.Problems, "; ")),
+					map[string]interface{}{"engine": "e3a-race", "configuration": m.Name})
+			}
+		}
+	})
+	return runs
 }
